@@ -134,7 +134,8 @@ def attribute(forms, kind, unit, as_module):
             n and n[0] in ("let", "let*") and len(n) > 2 and isinstance(n[1], list) and len(n[1]) >= 2 and
             any(isinstance(b, list) and len(b) == 2 and isinstance(b[1], list) and b[1] and b[1][0] == "quote" for b in n[1])
             for n in nodes):
-        return "F01 let that binds a quoted constant next to another binding makes the bound name a free identifier"
+        return ("F01 let that binds a quoted constant next to another binding makes the bound name a free identifier "
+                "(or, if an enclosing binding has that name, a reference to the enclosing one)")
     if "FreeIdentifier" in kind or (unit or {}).get("kind") == "FreeIdentifier":
         for n in nodes:
             if n and n[0] == "let" and len(n) > 2 and isinstance(n[1], list) and len(n[1]) >= 2:
@@ -143,6 +144,29 @@ def attribute(forms, kind, unit, as_module):
                     if not isinstance(b[1], (list, R.Sym)) and any(o is not b and any(a == b[0] for a in _atoms(o[1])) for o in bs):
                         return ("F13 let that binds a literal constant to a name shadowing an enclosing variable, next to a binding whose "
                                 "initialiser reads that variable, makes the other bound name a free identifier")
+    if "wrong value" in kind or "void" in kind or "stdout" in kind:
+        # the same dropped binding, seen from the other side: the name then resolves to an enclosing binding of that name
+        def binds(n):
+            if n and n[0] in ("let", "let*", "letrec") and len(n) > 2 and isinstance(n[1], list):
+                return [b[0] for b in n[1] if isinstance(b, list) and len(b) == 2]
+            if n and n[0] == "lambda" and len(n) > 2 and isinstance(n[1], list):
+                return [p for p in n[1] if isinstance(p, R.Sym)]
+            if n and n[0] == "define" and len(n) > 2 and isinstance(n[1], list):
+                return [p for p in n[1][1:] if isinstance(p, R.Sym)]
+            return []
+
+        def inner_const_lets(n, outer):
+            if not isinstance(n, list):
+                return False
+            if n and n[0] in ("let", "let*") and len(n) > 2 and isinstance(n[1], list) and len(n[1]) >= 2:
+                for b in n[1]:
+                    if isinstance(b, list) and len(b) == 2 and isinstance(b[1], list) and b[1] and b[1][0] == "quote" and b[0] in outer:
+                        return True
+            o2 = outer | set(binds(n))
+            return any(inner_const_lets(e, o2) for e in n)
+        if inner_const_lets(forms, set()):
+            return ("F01 let that binds a quoted constant next to another binding makes the bound name a free identifier "
+                    "(or, if an enclosing binding has that name, a reference to the enclosing one)")
     if "succeeds where the reference raises" in kind or "effects" in kind:
         arities = {}
         for f in forms:
@@ -156,7 +180,7 @@ def attribute(forms, kind, unit, as_module):
         if "wrong value" in kind or "stdout" in kind or "void" in kind or "effects" in kind or "raises" in kind:
             return "F03 conditional whose test introduces a binding ((or a b), let, lambda application) takes the wrong branch"
     stderr = (unit or {}).get("stderr") or ""
-    ptxt = str((unit or {}).get("panics")) + kind
+    ptxt = str((unit or {}).get("panics")) + kind + stderr
     if "jit2/cgen.rs" in ptxt and "not yet implemented" in ptxt:
         return "F09 native code generator reaches todo!() (ALLOC/READALLOC/SETALLOC: set! of a let-bound variable in an internal define) and poisons the JIT lock"
     if "PoisonError" in ptxt or "Deprecated now - this shouldn't be hit" in ptxt:
@@ -171,7 +195,7 @@ def attribute(forms, kind, unit, as_module):
                         later = [bb[1] for bb in n[1][idx + 1:] if isinstance(bb, list) and len(bb) == 2] if n[0] == "let*" else []
                         if not used(b[0], n[2:] + later) and isinstance(b[1], list):
                             return "F08 the initialiser of an unused let / let* binding is not evaluated, so an error it would raise is lost"
-    if "couldn't match the name for the op code" in kind or "couldn't match the name for the op code" in str((unit or {}).get("panics")):
+    if "couldn't match the name for the op code" in ptxt:
         return "F06 (module mode) native code generator panics on + - * / < <= > >= applied to an unsupported number of operands"
     if "TypeMismatch" in kind and "#&" in err:
         return "F04 read of an assigned variable captured by a loop closure yields its box instead of its value"
@@ -206,6 +230,7 @@ KNOWN_WITNESSES = [
     ("F09", "(define (f0 a3) (define (inner4 z) (let* ((v4 (list)) (v1 a3)) (set! v1 (+ v1 2)) 0)) 0) (verif-emit 1)", False),
     ("F07", "(verif-emit (let ((not (lambda (x) (+ x 5)))) (not 1)))", True),
     ("F01", "(verif-emit (let ((v3 (vector 4 7)) (v4 '())) v4))", False),
+    ("F01", "(verif-emit (let ((v4 (list 1 2))) (let ((v7 (vector 5 3)) (v4 'b)) v4)))", False),
     ("F02", "(define (g3 a b) (list a b)) (verif-emit (g3 1 2 (begin (verif-emit 'evaluated) 3)))", False),
     ("F03", "(verif-emit (if (or #f #f) 'yes 'no))", False),
     ("F03", "(verif-emit (letrec ((v4 (lambda (x5) 1))) (if (let ((v9 100)) #f) 'yes 'no)))", False),
@@ -491,7 +516,7 @@ def main(tier, prop="C01"):
             src = R.program_source(small)
             attr = attribute(small, kind, fin[2], as_module)
             if attr is None and not env.get("STEEL_JIT") and fin[0][0] == "err" and (
-                    "succeeds where the reference raises" in kind or "void" in kind or "signal:11" in kind):
+                    "succeeds where the reference raises" in kind or "void" in kind or "signal:11" in kind or "effects" in kind):
                 # the reference raises; does the engine agree with it once native code generation is off?
                 nj = check_one(small, dict(env, STEEL_JIT="false"), as_module)
                 if nj is not None and nj[0] == nj[1]:
